@@ -75,6 +75,52 @@ def _computed_delay(fn, t: ast.AST, event_params) -> str | None:
     return unparse(d) if risky else None
 
 
+def _delay_part(v: ast.AST) -> ast.AST:
+    return v.elts[0] if isinstance(v, ast.Tuple) and v.elts else v
+
+
+def _unfloored(e: ast.AST, sd) -> str | None:
+    """The delay expression (single definitions expanded) can evaluate to zero although it is not the constant 0: a `min(...)` with a
+    non-constant argument or a subtraction, with no positive floor (`max(<positive constant>, ...)`) above it."""
+    e = expand(_delay_part(e), sd)
+    while isinstance(e, ast.Call) and (path_of(e.func) or "").split(".")[-1] in ("float", "from_seconds", "Duration") and e.args:
+        e = e.args[0]
+    if isinstance(e, ast.Call) and path_of(e.func) == "max" and any(isinstance(a, ast.Constant) and isinstance(a.value, (int, float)) and a.value > 0 for a in e.args):
+        return None
+    if isinstance(e, ast.Call) and path_of(e.func) == "min" and not all(isinstance(a, ast.Constant) for a in e.args):
+        return unparse(e)
+    if isinstance(e, ast.BinOp) and isinstance(e.op, ast.Sub):
+        return unparse(e)
+    return None
+
+
+def _spine_subs(e: ast.AST) -> list[tuple[ast.BinOp, bool]]:
+    """Subtractions on the arithmetic spine of a delay expression with whether a `max(0-or-more, …)` clamps them from above."""
+    out = []
+
+    def rec(x, clamped):
+        if isinstance(x, ast.BinOp):
+            if isinstance(x.op, ast.Sub):
+                out.append((x, clamped))
+                rec(x.left, clamped)
+                return  # the subtrahend's sign is reversed: a subtraction inside it adds
+            if isinstance(x.op, (ast.Add, ast.Mult, ast.Div)):
+                rec(x.left, clamped)
+                rec(x.right, clamped)
+        elif isinstance(x, ast.Call) and path_of(x.func) == "max" and any(isinstance(a, ast.Constant) and isinstance(a.value, (int, float)) and a.value >= 0 for a in x.args):
+            for a in x.args:
+                rec(a, True)
+        elif isinstance(x, ast.Call) and (path_of(x.func) or "").split(".")[-1] in ("float", "min", "from_seconds", "abs") and x.args:
+            if (path_of(x.func) or "").split(".")[-1] != "abs":
+                for a in x.args:
+                    rec(a, clamped)
+        elif isinstance(x, ast.IfExp):
+            rec(x.body, clamped)
+            rec(x.orelse, clamped)
+    rec(e, False)
+    return out
+
+
 def run(ctx: Ctx) -> None:
     prog = ctx.prog
     ev_names = event_class_names(prog)
@@ -191,12 +237,13 @@ def run(ctx: Ctx) -> None:
                     has_loop_yield = True
             if has_loop_yield:
                 loops_seen += 1
-                wl = zero_delay_wait_loops(prog, fn)
+                sd_ = single_defs(fn)
+                wl = zero_delay_wait_loops(prog, fn, may_be_zero=lambda e_, sd_=sd_: _unfloored(e_, sd_) is not None)
                 if not wl:
                     ctx.ob("C07-3", "G5", fn, None, True, "every suspending while-loop can let simulated time pass or makes its own progress")
                 for w in wl:
                     ctx.ob("C07-3", "G5", fn, w.loop, False,
-                           f"zero-delay wait loop: `while {unparse(w.loop.test)}` only ever yields a constant 0 delay and nothing in its body changes the "
+                           f"zero-delay wait loop: `while {unparse(w.loop.test)}` only ever yields a delay that is or can be 0 ({', '.join(sorted({unparse(_delay_part(y.value)) for y in w.yields if y.value is not None}))}; a min()/difference without a positive floor) and nothing in its body changes the "
                            "condition, so the waiter re-runs at the same instant forever and the clock never reaches the event that would release it")
     ctx.ob("C07-5", "G7", None, "package-wide recorded-instant scan", True, f"{n_sites} emission sites checked against {len(ts_attrs)} timestamp-holding attributes", relpath="happysimulator/")
     ctx.ob("C07-4", "G5", None, "package-wide self-reschedule scan", True, "every self-targeted emission has a configured / clamped delay", relpath="happysimulator/")
@@ -222,6 +269,58 @@ def run(ctx: Ctx) -> None:
                 ok = isinstance(o, ast.Call) and path_of(o.func) == "max" and any(isinstance(x, ast.Constant) and x.value == 0 for x in o.args)
                 ctx.ob("C07-6", "G6", fn, o, ok, f"{fn.qual}: the delay `{a}` summed from sampled terms leaves the function as max(0, {a}) (a jitter sample below −latency must not yield a negative delay)")
     need(n_acc >= 1, "C07-6: no accumulated sampled delay found (expected NetworkLink._calculate_delay)")
+    # C07-8: a yielded delay that is a difference is provably non-negative where it is computed: clamped by max(0, …) or guarded by the
+    # comparison of its two operands on every path.  A negative delay stamps the continuation in the past; the engine drops it and the
+    # process silently stops.
+    n_sub = 0
+    for fn in prog.all_functions("happysimulator/"):
+        if not fn.module.relpath.startswith(SCOPE) or not fn.is_generator:
+            continue
+        sd = single_defs(fn)
+        ff = None
+        for y in [x for x in walk_scope(fn.node, include_root=False) if isinstance(x, ast.Yield) and x.value is not None]:
+            raw = _delay_part(y.value)
+            e = expand(raw, sd)
+            for sub, clamped in _spine_subs(e):
+                n_sub += 1
+                ok = clamped
+                if not ok:
+                    ff = ff or ctx.flow(fn)
+                    # the statement in which the difference is evaluated: the yield itself or the single definition it came from
+                    holder = None
+                    for st in walk_stmts(fn.node.body):
+                        if not isinstance(st, (ast.If, ast.While, ast.For, ast.Try, ast.With, ast.FunctionDef)) and \
+                                any(isinstance(x, ast.BinOp) and isinstance(x.op, ast.Sub) and unparse(x) == unparse(sub) for x in ast.walk(st)):
+                            holder = st
+                    node = next((x for x in ff.cfg.nodes if x.kind == "stmt" and x.ast is holder), None) if holder is not None else None
+                    l_, r_ = unparse(sub.left), unparse(sub.right)
+                    if node is not None:
+                        have = set(ff.facts_at(node).keys())
+                        ok = ("lt", r_, l_) in have or ("le", r_, l_) in have
+                ctx.ob("C07-8", "G5", fn, y, ok, f"{fn.qual}: the yielded delay `{unparse(raw)}` contains the difference `{unparse(sub)}`; it is clamped by max(0, …) or computed only "
+                       f"where `{unparse(sub.right)} <= {unparse(sub.left)}` is known — otherwise the continuation is stamped in the past and dropped")
+    need(n_sub >= 1, "C07-8: no yielded difference found (expected WriteAheadLog.append's wait for the in-flight fsync)")
+    # C07-9: no emission timestamp is derived from the current time by float multiplication / division / floor / modulo ("next grid point"
+    # arithmetic in seconds): `(now // i + 1) * i` can truncate onto the current nanosecond, and a tick that re-arms itself that way spins.
+    n_grid = 0
+    for fn in prog.all_functions("happysimulator/"):
+        if not fn.module.relpath.startswith(SCOPE):
+            continue
+        sd = None
+        evp = {p for p in fn.params() if p in ("event", "evt", "ev", "request_event")}
+        for c, t in emission_calls(prog, fn, ev_names):
+            if t is None:
+                continue
+            sd = sd if sd is not None else single_defs(fn)
+            e = expand(t, sd)
+            bad = [m for m in ast.walk(e) if isinstance(m, ast.BinOp) and isinstance(m.op, (ast.FloorDiv, ast.Mod, ast.Mult, ast.Div))
+                   and any(is_time_source(x, evp) for x in walk_scope(m)) and "to_seconds" in unparse(m)]
+            n_grid += 1
+            if bad:
+                ctx.ob("C07-9", "G5", fn, f"Event(time={unparse(t)})", False,
+                       f"emission timestamp `{unparse(e)[:120]}` is computed from the current time in float seconds by `{unparse(bad[0])[:80]}` (grid arithmetic): the result can "
+                       "truncate onto or before the current nanosecond — align ticks in integer nanoseconds, or add a positive delay to now", node=c)
+    ctx.ob("C07-9", "G5", None, "package-wide grid-arithmetic scan", True, f"{n_grid} emission timestamps: none is a float multiple/quotient/remainder of the current time", relpath="happysimulator/")
     # C07-7: a tick that is re-armed by searching the schedule for the next boundary searches strictly after the boundary it just handled
     ss = prog.func("happysimulator/components/industrial/shift_schedule.py", "ShiftedServer._handle_shift_change")
     calls = [c for c in calls_in(ss.node) if path_of(c.func) == "self._schedule_next_shift"]
@@ -243,7 +342,12 @@ def run(ctx: Ctx) -> None:
 MQ_ = "happysimulator/components/messaging/message_queue.py"
 GC_ = "happysimulator/components/infrastructure/garbage_collector.py"
 CAN_ = "happysimulator/components/deployment/canary_deployer.py"
+DB_ = "happysimulator/components/datastore/database.py"
 MUTANTS = [
+    ("db-connection-poll-can-be-zero", DB_, "        while not acquired[0]:\n            yield 0.01  # Poll interval\n", "        poll_interval = min(0.01, self._connection_latency)\n        while not acquired[0]:\n            yield poll_interval\n", "C07-3"),
+    ("warmer-pause-minus-fetch-time", "happysimulator/components/datastore/cache_warming.py", "            yield inter_key_delay\n", "            yield inter_key_delay - self._fetch_latency_s\n", "C07-8"),
+    ("wal-wait-without-guard", "happysimulator/components/storage/wal.py", "        elif self.now.nanoseconds < self._sync_busy_until_ns:\n", "        else:\n", "C07-8"),
+    ("watermark-tick-on-float-grid", "happysimulator/components/streaming/stream_processor.py", "            next_time = Instant.from_seconds(self.now.to_seconds() + self._watermark_interval_s)", "            next_time = Instant.from_seconds((self.now.to_seconds() // self._watermark_interval_s + 1) * self._watermark_interval_s)", "C07-9"),
     ("link-delay-clamps-base-only", "happysimulator/components/network/link.py", ["        delay = self.latency.get_latency(self.now).to_seconds()\n", "        return max(0.0, delay)"], ["        delay = max(0.0, self.latency.get_latency(self.now).to_seconds())\n", "        return delay"], "C07-6"),
     ("shift-rearm-from-truncated-clock", "happysimulator/components/industrial/shift_schedule.py", "        next_event = self._schedule_next_shift(after_s=time_s)", "        next_event = self._schedule_next_shift()", "C07-7"),
     ("delivery-stamped-before-latency", MQ_, "        delivery_event = Event(\n            time=self._clock.now if self._clock else Instant.Epoch,\n            event_type=\"message_delivery\",", "        delivery_event = Event(\n            time=now,\n            event_type=\"message_delivery\",", "C07-1"),
